@@ -242,4 +242,8 @@ def rules(model: Model, prop: str, tier: str = "quick") -> List[RuleResult]:
     unique_fill(model, M)
     A = RuleResult(prop, "SUB-A", "substitution layer: the pure function's record of the installed tensors never escapes (accessors return copies)", min_instances=3)
     no_escape_of_current_params(model, A)
-    return [G, I, N, K, M, A]
+    D = RuleResult(prop, "SUB-D", "substitution layer: get_pure_function gives every kind of callable its own wrapper (abstract run over the kinds of argument)", min_instances=6)
+    c09._dispatch(model, D)
+    P = RuleResult(prop, "SUB-P", "substitution layer: the installed copies are removed on every exit (normal and exceptional) of the foreign-code region", min_instances=12)
+    c10._pairing(model, P)
+    return [G, I, N, K, M, A, D, P]
